@@ -60,6 +60,10 @@ CHECKS = {
  "C18": dict(tech="property-based testing (proptest): round trip through Display / FromStr for components and factors, differential evaluation of both sides, and a sample through cteepbd --oc/--of and a second run on the emitted files",
              text="Generated component files (any layout: legacy lines without id, spacing, comment lines, BOM, CRLF, header; comments with '#', ',', ':'; metadata; AUX, SALIDA, DEMANDA, completion cases) and prepared factor sets are written with to_string() and parsed back: same metadata, demands within 0.005, components equal by (kind, id, tags) within 0.005 per printed value, same user comments, factors with the same keys in order within 0.0005, and the evaluation of the read-back pair within the accumulated printing error. About 1-2 % of the cases run cteepbd --oc/--of and re-run it on the emitted files, comparing the two reports. Exploration.",
              note="Grouped comparison (re-reading re-normalises); by-service weighted energy compared with a conditioning-aware slack; CLI part for areas >= 0.01 m2 (metadata precision).", ref="4/C18"),
+
+ "C10": dict(tech="property-based testing (proptest): metamorphic relation between a canonical file and a generated meaning-preserving rewriting of it; repeated evaluation in process and in separate processes",
+             text="Each generated building is rendered canonically and through a composition of rewritings (line permutation, splitting a line into pieces that add up, bijective id renumbering incl. to/from 0 and negative ids, omitted id 0, spacing, whitespace, blank and # lines, vector header, BOM, CRLF, demands/metadata positions): both must parse, all numeric fields, RER values and the DHW fraction must agree within tolerance, three repeated evaluations must agree, and a sample is run through the binary twice on the same file and once on the rewritten file (identical report lines, numbers within one printed unit). Exploration.",
+             note="Tolerance policy (HashMap summation order); lines are split only when their values are whole hundredths.", ref="4/C10"),
 }
 PENDING = {}
 TITLES = {}
